@@ -598,7 +598,9 @@ func (c *c05) deliver(r *c05Rep, ents []pb.Entry, upto uint64) string {
 	} else {
 		start := 0
 		for i := 1; i <= len(ents); i++ {
-			if i == len(ents) || ents[i].IsNoOPSession() != ents[start].IsNoOPSession() {
+			// mode 2: one task holds the whole run, noop-session and session-managed
+			// entries mixed, as one raft Update can deliver them
+			if i == len(ents) || (c.mode == 1 && ents[i].IsNoOPSession() != ents[start].IsNoOPSession()) {
 				r.sm.taskQ.Add(Task{Entries: append([]pb.Entry(nil), ents[start:i]...)})
 				start = i
 			}
@@ -1098,7 +1100,7 @@ func TestVerifC05(t *testing.T) {
 	res := verifkit.NewResult()
 	defer run.Finish(res)
 	depth := run.Pick(6, 7)
-	res.Rule = fmt.Sprintf("every sequence of exactly %d enabled ops (and thereby every shorter one as a prefix) over {register(c), unregister(c), next(c), retry(c), abandon(c) (series given up before reaching the log, may still arrive late), late-dup(c,k<=2), noop-session proposal, snapshot+restore from the primary / from the newest restored twin} for 3 client slots with LRUMaxSessionCount=2, in two delivery modes (0: regular IStateMachine, one entry per task, oracle after every entry; 1: IConcurrentStateMachine, entries batched into tasks per run of noop/session entries and handed over at snapshot cuts and at the end, which reaches handleBatch); every snapshot op at index S restores the snapshot into a FRESH StateMachine (twin) and additionally installs it, through the real non-initial Recover, on one RUNNING lagging replica for every lag point j in [0,S) (a StateMachine that has applied exactly entries 1..j); twins and lagging replicas then receive every later entry; evaluation = one complete sequence executed on the real StateMachine(s) and compared with the reference model after every hand-over; distinct_nontrivial = sequences containing at least one cached / ignored / rejected outcome, an LRU eviction, or entries applied on both sides of a snapshot cut (all sequences are distinct by construction)", depth)
+	res.Rule = fmt.Sprintf("every sequence of exactly %d enabled ops (and thereby every shorter one as a prefix) over {register(c), unregister(c), next(c), retry(c), abandon(c) (series given up before reaching the log, may still arrive late), late-dup(c,k<=2), noop-session proposal, snapshot+restore from the primary / from the newest restored twin} for 3 client slots with LRUMaxSessionCount=2, in three delivery modes (0: regular IStateMachine, one entry per task, oracle after every entry; 1: IConcurrentStateMachine, entries batched into tasks per run of noop/session entries and handed over at snapshot cuts and at the end, which reaches handleBatch; 2: as 1 but one task per hand-over with noop-session and session-managed entries mixed, as one raft Update delivers them); every snapshot op at index S restores the snapshot into a FRESH StateMachine (twin) and additionally installs it, through the real non-initial Recover, on one RUNNING lagging replica for every lag point j in [0,S) (a StateMachine that has applied exactly entries 1..j); twins and lagging replicas then receive every later entry; evaluation = one complete sequence executed on the real StateMachine(s) and compared with the reference model after every hand-over; distinct_nontrivial = sequences containing at least one cached / ignored / rejected outcome, an LRU eviction, or entries applied on both sides of a snapshot cut (all sequences are distinct by construction)", depth)
 	res.Assumptions = []string{
 		"the snapshot container (file format, compression) is replaced by an in-memory byte stream; SaveSessions/LoadSessions, NativeSM.Save/Recover and StateMachine.Save/Recover are real",
 		"a client slot that registers again gets a fresh client id (ids are random 64 bit values in the real client), so the duplicate of a REGISTER entry is not part of the alphabet",
@@ -1125,7 +1127,7 @@ func TestVerifC05(t *testing.T) {
 		prefix []int
 	}
 	var items []item
-	for mode := 0; mode < 2; mode++ {
+	for mode := 0; mode < 3; mode++ {
 		root := c05New(mode)
 		e0 := root.Enabled()
 		for i := range e0 {
